@@ -33,6 +33,7 @@ func init() {
 		}
 		fs.Tri("loopOrder", Unknown, conv)
 		fs.Tri("shapeUsesHead", Unknown, mapb)
+		c22ValueDefaults(fs)
 		fc, err1 := Load(conv)
 		fm, err2 := Load(mapb)
 		fh, err3 := Load(main)
@@ -154,6 +155,7 @@ func init() {
 				strings.Contains(src, `if head == "" { continue }`) && !strings.Contains(src, "strings.Contains(")
 			fs.Tri("shapeUsesHead", TriOf(ok), mapb+":"+itoa(fm.Line(fd)))
 		}
+		c22Values(fs)
 	}})
 }
 
